@@ -1,7 +1,7 @@
 import OtelVerif.Model.Attr
-/-! Lemmas about `Attr.Map` (used by C04 and C13): lookup after set, distinct keys, and the refinement of a sequence of
+/-! Lemmas about `SAttr.Map` (used by C04 and C13): lookup after set, distinct keys, and the refinement of a sequence of
 `SetAttribute` calls to "the last write per key". -/
-namespace Otel.Attr
+namespace Otel.SAttr
 
 /-- SPEC: the value of the last write to `k` in a sequence of writes (hand-written from "last write wins per key") -/
 def lastWrite {α : Type} (k : Bytes) (ws : List (Bytes × α)) : Option α := ((ws.filter (fun kv => kv.1 = k)).getLast?).map (·.2)
@@ -156,4 +156,4 @@ theorem nodup_ofIterable (kvs : List (Bytes × Value)) : (ofIterable kvs).keys.N
   nodup_foldl_setAttribute kvs [] (by simp [keys])
 
 end Map
-end Otel.Attr
+end Otel.SAttr
